@@ -36,6 +36,12 @@ TEMPLATES = [
      '@Tpl@(@p1@, @p2@) = [@p1@("a"), "-", @p2@(x="b"), @p1@(@p2@("c"))]\n@Rule@(x) = [x, x]\n@Num@(x) = x*\nstart = @Tpl@(@Rule@, @Num@) | @Tpl@(@Num@, @Rule@)\n',
      ['aa-bbbcc', 'aaa-bbccc', 'aa-cc', '', 'a-bbcccc', '-bb']),
 ]
+TEMPLATES.append(
+    # repetitions with literal bounds next to user-chosen locals, parameters and rule names (counting loops of the generated code)
+    ('bounded-repetitions',
+     'class @Cls@ { @f1@: /[0-9]/{2}; @f2@: /[a-z]/{1,3}; @f3@: "x"{,2}; @f4@: `@f1@` }\n'
+     'start = let @v1@ = /[0-9]/{1,2} in [@Cls@, `@v1@`, @Tpl@("q")]\n@Tpl@(@p1@) = @p1@{,2} >> /[a-z]/{1,3}\n',
+     ['112abxxqa', '112ab', '91a', '1', '', '1212abcxqqabc', '112abq']))
 PLAIN = {'v1': 'alpha', 'v2': 'beta', 'f1': 'first', 'f2': 'second', 'f3': 'third', 'f4': 'fourth', 'p1': 'px', 'p2': 'py',
          'Rule': 'Item', 'Cls': 'Node', 'Tpl': 'Tmpl', 'Num': 'Numb'}
 LOCAL_KEYS = ['v1', 'v2', 'f1', 'f2', 'f3', 'f4', 'p1', 'p2']
@@ -43,8 +49,12 @@ GLOBAL_KEYS = ['Rule', 'Cls', 'Tpl', 'Num']
 TEMP_BASES = ['value', 'end', 'item', 'staging', 'checkpoint', 'backtrack', 'farthest_pos', 'farthest_err', 'farthest_result',
               'farthest_position', 'has_result', 'farthest_error_result', 'farthest_error_position', 'match', 'matcher', 'arg', 'func',
               'start_pos', 'saw_separator', 'saved']
+import builtins as _builtins
 BUILTINS = ['list', 'len', 'id', 'object', 'dict', 'tuple', 'isinstance', 'hash', 'reversed', 'enumerate', 'getattr', 'hasattr', 'repr',
             'max', 'set', 'bytes', 'str', 'int', 'slice', 'bool', 'super', 'staticmethod', 'TypeError']
+# ... and every other lower-case builtin of this Python (whatever the generated code may come to call by bare name)
+BUILTINS += sorted(n for n in dir(_builtins) if n.isidentifier() and n.islower() and not n.startswith('_') and n not in BUILTINS
+                   and n not in ('copyright', 'credits', 'license', 'exit', 'quit', 'help', 'input', 'breakpoint', 'print', 'open', 'exec', 'eval', 'compile'))
 CONSTRUCTORS = ['Seq', 'List', 'Left', 'Right', 'Opt', 'Choice', 'Sep', 'Some', 'Skip', 'Str']
 # identifiers that BEGIN with a word of the grammar language
 KEYWORDISH = ['letter', 'let_it', 'Nonempty', 'Truest', 'Falsehood', 'whereabouts', 'classy', 'ignored_x', 'passing', 'requirement', 'inside',
